@@ -11,6 +11,7 @@ CONSTANTS
   CrashBudget = 1
   AdvBudget = 0
   Debris <- NoDebris
+  PreRO <- NoPreRO
   FrontKind = "plain"
   KeyShards <- NoKeyShards
 VIEW View
